@@ -670,7 +670,9 @@ impl<'a> Rd<'a> {
                 }
             }
         } else {
-            if "()[];\"".contains(c) || c.is_ascii_control() || c == ' ' {
+            // Emacs requires a backslash before ( ) [ ] ; and recommends one before | ' ` # . ,
+            // — but it reads ?" and "? " (a space) as those characters, and lexpr prints them so
+            if "()[];".contains(c) || c.is_ascii_control() {
                 return Err(Stop::Unspec);
             }
             c
